@@ -49,7 +49,7 @@ def _run_edge(b, mg, m, idx, cfgi, props):
                 res['mism'][p] = mm
         res['out'] = obs_out
         if exc is not None:
-            res['exc'] = repr(exc)[:300]
+            res['exc'] = str(exc)[:300]
     finally:
         sess.close()
     return res
@@ -139,7 +139,7 @@ def _run_path(b, mg, path, pi, cfgi, props):
                 res['label'] = m.label()
                 res['out'] = obs_out
                 if exc is not None:
-                    res['exc'] = repr(exc)[:300]
+                    res['exc'] = str(exc)[:300]
                 break
             cur = mg.dst_key(chosen)
     finally:
